@@ -20,7 +20,7 @@ def build(case):
             if e:
                 tr.append(mido.MetaMessage('end_of_track', time=dt))
             else:
-                v = (i * 7 + j) % 5            # a mix of types (meta incl. set_tempo, channel, sysex): the order must not depend on the type
+                v = (i * 7 + j) % 6            # a mix of types (meta incl. set_tempo, channel, sysex): the order must not depend on the type
                 if v == 0:
                     tr.append(mido.MetaMessage('marker', text='%d:%d' % (i, j), time=dt))
                 elif v == 1:
@@ -29,6 +29,9 @@ def build(case):
                     tr.append(mido.MetaMessage('set_tempo', tempo=i * 100000 + j + 1, time=dt))
                 elif v == 3:
                     tr.append(mido.Message('note_on', channel=i % 16, note=j % 128, velocity=(j // 128) % 128, time=dt))
+                elif v == 5:
+                    # a meta message of a type the library has no specification for: it is a message like any other
+                    tr.append(mido.UnknownMetaMessage(0x60, data=[i % 128, j % 128, (j // 128) % 128], time=dt))
                 else:
                     tr.append(mido.Message('sysex', data=[i % 128, j % 128, (j // 128) % 128], time=dt))
         tracks.append(tr)
@@ -53,7 +56,7 @@ def ident(m, ntracks_hint=None):
         return (0, (m.tempo - 1) // 100000, (m.tempo - 1) % 100000)
     if m.type == 'note_on':
         return (0, m.channel, m.note + 128 * m.velocity)
-    if m.type == 'sysex':
+    if m.type in ('sysex', 'unknown_meta'):
         return (0, m.data[0], m.data[1] + 128 * m.data[2])
     return (0, m.channel, m.control + 128 * m.value)
 
@@ -167,6 +170,12 @@ def impl_merge(case):
                 ref2 = [(m.time, repr(m)) for m in mido.merge_tracks(tr2)]
                 if now2 != ref2:
                     fail = ('merged-track-stale', 'merged_track of a file whose tracks were edited in place after an earlier look gives %r; its tracks now merge to %r' % (now2[:4], ref2[:4]))
+            if fail is None and len(tracks) != 1:
+                # merged_track merges the tracks the file HAS, whatever its header says about them (a type 0 file that was given more tracks)
+                mfx = mido.MidiFile(type=0, tracks=tracks)
+                if [(m.time, repr(m)) for m in mfx.merged_track] != want_repr:
+                    fail = ('merged-track', 'merged_track of a file of type 0 holding %d tracks differs from merge_tracks of those tracks: %d messages, expected %d'
+                            % (len(tracks), len(mfx.merged_track), len(want_repr)))
             if fail is None and len(tracks) == 1:
                 mf0 = mido.MidiFile(type=0, tracks=tracks)
                 if [(m.time, repr(m)) for m in mf0.merged_track] != want_repr:
